@@ -124,9 +124,21 @@ fn op(t: &mut Tape, st: &mut St) -> Vec<Stmt> {
             vec![Stmt::Dim(vec![(n, dims.iter().map(|d| lit(*d as i64)).collect())])]
         }
         3 => {
-            let n = if !st.arrays.is_empty() && t.chance(3, 4) { st.arrays[t.below(st.arrays.len())].0.clone() } else { name(t) };
-            st.arrays.retain(|(x, _)| *x != n);
-            vec![Stmt::Erase(vec![n])]
+            // one to three names; one of them may not be dimensioned (the statement then stops
+            // there: the names before it are erased, the ones behind it are not)
+            let k = *t.pick(&[1usize, 1, 2, 3]);
+            let mut names: Vec<Name> = vec![];
+            for _ in 0..k {
+                let n = if !st.arrays.is_empty() && t.chance(3, 4) { st.arrays[t.below(st.arrays.len())].0.clone() } else { name(t) };
+                if !names.contains(&n) {
+                    names.push(n);
+                }
+            }
+            // (the generator's own list of arrays is only a hint for picking names)
+            if names.len() == 1 {
+                st.arrays.retain(|(x, _)| *x != names[0]);
+            }
+            vec![Stmt::Erase(names)]
         }
         4 => {
             let a = target(t, st);
